@@ -54,6 +54,7 @@ func main() {
 		panic(err)
 	}
 	w := lib.NewWriter(header, 400)
+	defer w.Guard()
 	n := lib.Count(900, 30000)
 
 	// the stored log (honest mode serves from it)
@@ -278,6 +279,9 @@ func main() {
 			Tags: []string{tag, "backend:" + mode, fmt.Sprintf("status:%d", rec.Code)},
 		})
 	}
+	ctfe.MaxGetEntriesAllowed = 1000
+	flag.Set("align_getentries", "false")
+	realEntries(w, r)
 	w.Close()
 	fmt.Printf("c07: wrote %d cases\n", w.Len())
 }
